@@ -46,8 +46,8 @@ ASSUMPTIONS = [
 ENV = {"NUMBA_BOUNDSCHECK": "1"}
 TIMEOUT = {"quick": 1200, "thorough": 7200}
 
-QUICK_MODELS = M.NUC_REV + M.NUC_NS + ["MG94HKY", "CNFGTR", "GY94", "JTT92", "DINUC_conditional", "DINUCGTR_monomer", "DINUCGN_tuple"]
-ALL_MODELS = M.NUC_REV + M.NUC_NS + M.CODON + M.PROTEIN + M.DINUC
+QUICK_MODELS = M.NUC_REV + M.NUC_NS + M.SOLVED + ["MG94HKY", "CNFGTR", "GY94", "JTT92", "DINUC_conditional", "DINUCGTR_monomer", "DINUCGN_tuple", "DINUC_monomers", "CODON_monomers"]
+ALL_MODELS = M.NUC_REV + M.NUC_NS + M.SOLVED + M.CODON + M.USERCODON + M.PROTEIN + M.DINUC
 
 
 def gen_cases(rng, tier):
@@ -129,17 +129,20 @@ def decide_problem(res, prob, replay_kind="one"):
         vals = M.edge_param_values(prob, e["name"])
         Q_or, wp = M.build_Q(model, states, vals, prob["mprobs"], sm=sm)
         wp_expected = wp
-        try:
-            Q_lf = lf.get_rate_matrix_for_edge(e["name"], calibrated=True).to_array()
-        except Exception as ex:  # noqa: BLE001
+        if model in M.SOLVED:
+            Q_lf = None  # closed-form P: the function has no Q to report (rate_matrix_required=False)
+        else:
+            try:
+                Q_lf = lf.get_rate_matrix_for_edge(e["name"], calibrated=True).to_array()
+            except Exception as ex:  # noqa: BLE001
+                res.evals += 1
+                res.witness(exc_mechanism("C02/get_rate_matrix_for_edge", ex), model=model, replay_case=rc)
+                return None
             res.evals += 1
-            res.witness(exc_mechanism("C02/get_rate_matrix_for_edge", ex), model=model, replay_case=rc)
-            return None
-        res.evals += 1
-        res.count("L2-rate-matrix")
-        if not close(Q_lf, Q_or, 1e-9, 1e-12):
-            i, j = np.unravel_index(np.argmax(np.abs(Q_lf - Q_or)), Q_or.shape)
-            bad(f"L2-rate-matrix/{fam}", edge=e["name"], cell=(states[i], states[j]), got=Q_lf[i, j], exp=Q_or[i, j], params=vals)
+            res.count("L2-rate-matrix")
+            if not close(Q_lf, Q_or, 1e-9, 1e-12):
+                i, j = np.unravel_index(np.argmax(np.abs(Q_lf - Q_or)), Q_or.shape)
+                bad(f"L2-rate-matrix/{fam}", edge=e["name"], cell=(states[i], states[j]), got=Q_lf[i, j], exp=Q_or[i, j], params=vals)
         for b, bn in enumerate(bin_names):
             kw = {"bin": bn} if bn else {}
             P = lf.get_psub_for_edge(e["name"], **kw).to_array()
@@ -148,13 +151,17 @@ def decide_problem(res, prob, replay_kind="one"):
             P_or[(e["name"], b)] = M.expm(Q_or, t)
             res.evals += 1
             res.count("L3-exponential")
-            if not close(P, M.expm(Q_lf, t), 1e-7, 1e-9):
+            if Q_lf is None:
+                res.count("solved-P")
+                if not close(P, P_or[(e["name"], b)], 1e-7, 1e-9):
+                    bad("L3-closed-form-P/solved-nucleotide", edge=e["name"], bin=b, length=t, maxdiff=float(np.abs(P - P_or[(e["name"], b)]).max()))
+            elif not close(P, M.expm(Q_lf, t), 1e-7, 1e-9):
                 bad(f"L3-exponential/{prob.get('expm') or 'default'}", edge=e["name"], bin=b, length=t, maxdiff=float(np.abs(P - M.expm(Q_lf, t)).max()))
     # reported motif probs
     res.evals += 1
-    mp = lf.get_motif_probs()
-    mp_got = {str(k): float(mp[k]) for k in mp.keys()}
-    if prob["mprobs"] is not None:
+    if prob["mprobs"] is not None and "positions" not in prob["mprobs"]:
+        mp = lf.get_motif_probs()
+        mp_got = {str(k): float(mp[k]) for k in mp.keys()}
         if any(abs(mp_got.get(k, -1) - v) > 1e-9 for k, v in prob["mprobs"].items()):
             bad("motif-probs-not-as-set", got=mp_got, exp=prob["mprobs"])
     # L1 pruning with the lf's own P matrices
@@ -203,6 +210,8 @@ def decide_problem(res, prob, replay_kind="one"):
         res.count("scoped")
     if bins > 1:
         res.count("binned")
+        if prob.get("bprobs"):
+            res.count("binned-unequal-bprobs")
     if any(e["length"] == 0 for e in edge_nodes):
         res.count("zero-length-edge")
     if np.isinf(lnL):
@@ -224,11 +233,11 @@ def run_case(case):
             bins = 1
             scoped = False
             expm_setting = None
-            if M.kind_of(model) == "nuc" and cfg < 0.25:
+            if M.kind_of(model) == "nuc" and cfg < 0.3:
                 bins = rng.choice([2, 3, 4])
             elif cfg < 0.55:
                 scoped = True
-            if rng.random() < 0.3:
+            if rng.random() < 0.3 and model not in M.SOLVED:  # closed-form models have no expm setting
                 expm_setting = rng.choice(["eigen", "pade", "either", "checked"])
             prob = M.gen_problem(rng, model, scoped=scoped, bins=bins, expm_setting=expm_setting)
             decide_problem(res, prob)
@@ -311,5 +320,5 @@ def decide_discrete(res, rng, model):
 
 
 def required(counters, tier):
-    need = ["polytomy", "with-ambiguity", "scoped", "binned", "zero-length-edge", "all-columns-sum", "L2-rate-matrix", "L3-exponential", "L1-pruning"]
+    need = ["polytomy", "with-ambiguity", "scoped", "binned", "binned-unequal-bprobs", "solved-P", "zero-length-edge", "all-columns-sum", "L2-rate-matrix", "L3-exponential", "L1-pruning"]
     return [n for n in need if not counters.get(n)]
